@@ -219,3 +219,84 @@ def _inside(node, container, par) -> bool:
         if cur is container:
             return True
     return False
+
+
+def _method(repo: Repo, module: str, cls: str | None, method: str):
+    m = repo.module(module)
+    return m.classes[cls].methods[method] if cls else m.functions[method]
+
+
+def yields_under_with(repo: Repo, module: str, cls, method: str, ctx_src: str, only_in_branch_of: str | None = None):
+    """every `yield` of the method that lies in the branch guarded by `only_in_branch_of` (source text of an if-test;
+    the else-branch when prefixed with 'not ') is inside `with/async with <ctx_src>`"""
+    fi = _method(repo, module, cls, method)
+    par = parents(fi.node)
+    out = []
+    for y in [n for n in ast.walk(fi.node) if isinstance(n, (ast.Yield, ast.YieldFrom))]:
+        held = False
+        cur = y
+        while cur in par:
+            cur = par[cur]
+            if isinstance(cur, (ast.With, ast.AsyncWith)) and any(ast.unparse(i.context_expr) == ctx_src for i in cur.items):
+                held = True
+        in_branch = True
+        if only_in_branch_of is not None:
+            neg = only_in_branch_of.startswith("not ")
+            test = only_in_branch_of[4:] if neg else only_in_branch_of
+            in_branch = False
+            cur = y
+            while cur in par:
+                p = par[cur]
+                if isinstance(p, ast.If) and ast.unparse(p.test) == test:
+                    in_branch = (cur in p.orelse) if neg else (cur in p.body)
+                    # a node deep inside: find which arm contains it
+                    if not in_branch:
+                        arm = p.orelse if neg else p.body
+                        in_branch = any(cur is s or _inside(cur, s, par) for s in arm)
+                cur = p
+        if in_branch:
+            out.append(ob(f"{module}.{cls}.{method}/yield-under:{ctx_src}@L{y.lineno}", held,
+                          f"the caller's block (yield at line {y.lineno}) runs {'inside' if held else 'OUTSIDE'} "
+                          f"`async with {ctx_src}`", y.lineno))
+    return out
+
+
+def no_await_before_with(repo: Repo, module: str, cls, method: str, ctx_src: str):
+    """the statements that precede `async with <ctx_src>` in its own block contain no await / yield (they form one
+    atomic section together with the evaluation of the context expression)"""
+    fi = _method(repo, module, cls, method)
+    par = parents(fi.node)
+    out = []
+    for w in [n for n in ast.walk(fi.node) if isinstance(n, (ast.With, ast.AsyncWith))
+              and any(ast.unparse(i.context_expr) == ctx_src for i in n.items)]:
+        p = par.get(w)
+        blk = next((getattr(p, f) for f in ("body", "orelse", "finalbody") if w in getattr(p, f, [])), None)
+        pre = blk[: blk.index(w)] if blk else []
+        bad = [n for st in pre for n in ast.walk(st) if isinstance(n, (ast.Await, ast.Yield, ast.YieldFrom, ast.AsyncWith,
+                                                                       ast.AsyncFor))]
+        out.append(ob(f"{module}.{cls}.{method}/atomic-before-with:{ctx_src}@L{w.lineno}", not bad,
+                      f"no await / yield between the start of the block and `async with {ctx_src}` at line {w.lineno}"
+                      if not bad else f"an await / yield precedes `async with {ctx_src}` in its block", w.lineno))
+    return out
+
+
+def awaited_call_under_with(repo: Repo, module: str, cls, method: str, call_prefix: str, ctx_prefix: str):
+    """every awaited call whose source starts with call_prefix is inside `async with <ctx_prefix>...`"""
+    fi = _method(repo, module, cls, method)
+    out = []
+    for fn in [fi.node] + [n for n in ast.walk(fi.node) if isinstance(n, (ast.FunctionDef, ast.AsyncFunctionDef))]:
+        par = parents(fn)
+        for n in ast.walk(fn):
+            if isinstance(n, ast.Await) and isinstance(n.value, ast.Call) and ast.unparse(n.value.func).startswith(call_prefix):
+                held = False
+                cur = n
+                while cur in par:
+                    cur = par[cur]
+                    if isinstance(cur, (ast.With, ast.AsyncWith)) and any(
+                            ast.unparse(i.context_expr).startswith(ctx_prefix) for i in cur.items):
+                        held = True
+                key = f"{module}.{cls}.{method}/call-under:{call_prefix}@L{n.lineno}"
+                if not any(o["id"] == key for o in out):
+                    out.append(ob(key, held, f"`await {ast.unparse(n.value)[:70]}` at line {n.lineno} runs "
+                                             f"{'inside' if held else 'OUTSIDE'} `async with {ctx_prefix}...`", n.lineno))
+    return out
